@@ -23,6 +23,7 @@ EXPLANATION = (
     "(R20.5) the CSV reader sniffs the dialect from a block read of the file, not from the header line alone. NOT decided: that a "
     "CSV parser recovers every cell, repr of every field type, what the sniffer concludes from its sample."
     " Rules added after the sixth blind round: (R20.6 = R15.7) a grouped record's flat view reads from the owning member; (R20.7 = R15.6 of C15) the CSV header test rests on descriptor equality by definition."
+    " Rules added after the seventh blind round: (R20.8) in normalize_fieldname the character substitution dominates the prefix tests, so the tests see the name that will be written."
 )
 RULE_SUMMARY = "instances: encode / open sinks, header-branch paths, uses of the line format, text-writer mappings"
 
